@@ -284,3 +284,418 @@ Proof.
          cbn [expr_ok] in X; rewrite (X _ E) in E2; injection E2 as <-; rewrite (X _ E); cbn [bind];
          now apply chk_add_ok end.
 Qed.
+
+(* ------------------------------------------------------------------ lists with index update *)
+
+Lemma set_nth_spec {A} i (x : A) : forall l l',
+  set_nth i x l = Ok l' ->
+  nth_error l' i = Some x /\ (forall j, j <> i -> nth_error l' j = nth_error l j) /\ length l' = length l.
+Proof.
+  induction i as [|i IH]; intros l l' H; destruct l as [|y r]; cbn [set_nth] in H; try discriminate.
+  - injection H as <-. split; [reflexivity|]. split; [|reflexivity].
+    intros [|j] Hj; [congruence|reflexivity].
+  - inv_ok H. injection Hb as <-. destruct (IH _ _ Ha) as [A1 [A2 A3]].
+    split; [exact A1|]. split.
+    + intros [|j] Hj; [reflexivity|]. cbn [nth_error]. apply A2. congruence.
+    + cbn [length]. now rewrite A3.
+Qed.
+
+Lemma set_nth_total {A} i (x : A) : forall l, (i < length l)%nat -> exists l', set_nth i x l = Ok l'.
+Proof.
+  induction i as [|i IH]; intros [|y r] H; cbn [length] in H; try lia; cbn [set_nth]; [eauto|].
+  destruct (IH r) as [l' E]; [lia|]. rewrite E. cbn. eauto.
+Qed.
+
+(* ------------------------------------------------------------------ the DIE tree *)
+
+Section die_induction.
+  Variable P : die -> Prop.
+  Hypothesis step : forall id tag sib attrs ch, Forall P ch -> P (Die id tag sib attrs ch).
+  Fixpoint die_ind2 (d : die) : P d :=
+    match d with
+    | Die id tag sib attrs ch =>
+        step id tag sib attrs ch
+          ((fix go (l : list die) : Forall P l :=
+              match l with
+              | [] => Forall_nil P
+              | c :: r => Forall_cons c (die_ind2 c) (go r)
+              end) ch)
+    end.
+End die_induction.
+
+(* ids in the order the two passes visit them *)
+Fixpoint die_ids (d : die) : list nat :=
+  match d with
+  | Die id _ _ _ ch => id :: flat_map die_ids ch
+  end.
+Definition dies_ids (l : list die) : list nat := flat_map die_ids l.
+
+Fixpoint die_expr_ok (d : die) : Prop :=
+  match d with
+  | Die _ _ _ attrs ch =>
+      Forall (fun p => expr_ok (snd p)) attrs /\
+      (fix go (l : list die) : Prop := match l with [] => True | c :: r => die_expr_ok c /\ go r end) ch
+  end.
+Fixpoint dies_expr_ok (l : list die) : Prop :=
+  match l with [] => True | c :: r => die_expr_ok c /\ dies_expr_ok r end.
+
+Lemma die_expr_ok_unfold id tag sib attrs ch :
+  die_expr_ok (Die id tag sib attrs ch) = (Forall (fun p => expr_ok (snd p)) attrs /\ dies_expr_ok ch).
+Proof. reflexivity. Qed.
+
+Section lists_of_dies.
+  Variables (dbg : bool) (e : encoding) (cx : wcx).
+  Fixpoint calc_list (l : list die) (s : cst) : res cst :=
+    match l with
+    | [] => Ok s
+    | c :: r => let* s' := calc dbg e c s in calc_list r s'
+    end.
+  Fixpoint write_list (l : list die) (p : N) : res (list wop) :=
+    match l with
+    | [] => Ok []
+    | c :: r =>
+        let* o := write_die dbg cx c p in
+        let* rest := write_list r (p + ops_len o) in
+        Ok (o ++ rest)
+    end.
+End lists_of_dies.
+
+Lemma calc_unfold dbg e id tag sib attrs ch st :
+  calc dbg e (Die id tag sib attrs ch) st =
+  (let* ents := set_nth id (cs_off st) (cs_entries st) in
+   let* ab := die_abbrev dbg e (Die id tag sib attrs ch) in
+   let (code, tab) := abbrev_add (cs_abbrevs st) ab in
+   let* codes := set_nth id code (cs_codes st) in
+   let* sz := die_size dbg e (Die id tag sib attrs ch) code in
+   let* off := chk_add 64 dbg (cs_off st) sz in
+   let st1 := mkCst off ents tab codes in
+   match ch with
+   | [] => Ok st1
+   | _ =>
+       let* st2 := calc_list dbg e ch st1 in
+       let* off2 := chk_add 64 dbg (cs_off st2) 1 in
+       Ok (mkCst off2 (cs_entries st2) (cs_abbrevs st2) (cs_codes st2))
+   end).
+Proof. reflexivity. Qed.
+
+Lemma write_die_unfold dbg cx id tag sib attrs ch pos :
+  write_die dbg cx (Die id tag sib attrs ch) pos =
+  (let* _ := (if dbg
+              then let* here := debug_info_offset dbg (wc_unit cx) (wc_entries cx) (mkEid (wc_unit cx) id) in
+                   dassert dbg (match here with Some o => o =? pos | None => false end)
+              else Ok tt) in
+   let* code := idx_get (wc_codes cx) id in
+   let* cb := write_uleb128 code in
+   let w := wsz (wc_enc cx) in
+   let has_sib := sib && has_kids ch in
+   let head := UnitWr.blen cb + (if has_sib then w else 0) in
+   let* aops := attrs_write dbg cx attrs in
+   match ch with
+   | [] => Ok (WMark id :: WB cb :: aops)
+   | _ =>
+       let* cops := write_list dbg cx ch (pos + head + ops_len aops) in
+       let after := pos + head + ops_len aops + ops_len cops + 1 in
+       let* sibb := (if has_sib
+                     then let* next := chk_sub 64 dbg after (wc_unit_off cx) in
+                          let* b := write_udata (wc_be cx) next w in Ok [WB b]
+                     else Ok []) in
+       Ok (WMark id :: WB cb :: sibb ++ aops ++ cops ++ [WB [x00]])
+   end).
+Proof. reflexivity. Qed.
+
+(* ------------------------------------------------------------------ attributes of one DIE *)
+
+Lemma attrs_write_size dbg cx : forall attrs acc aops,
+  attrs_write dbg cx attrs = Ok aops -> Forall (fun p => expr_ok (snd p)) attrs ->
+  acc + ops_len aops < 2 ^ 64 ->
+  attrs_size dbg (wc_enc cx) acc attrs = Ok (acc + ops_len aops).
+Proof.
+  induction attrs as [|[n v] r IH]; intros acc aops H X B; cbn [attrs_write attrs_size] in *.
+  - injection H as <-. rewrite ops_len_nil. f_equal. lia.
+  - binds. injection H as <-. rewrite ops_len_app in *.
+    inversion X as [|? ? X1 X2]; subst. cbn [snd] in X1.
+    rewrite (av_write_size _ _ _ _ E X1) by lia. cbn [bind].
+    rewrite chk_add_ok by lia. cbn [bind].
+    rewrite (IH _ _ E0 X2) by lia. f_equal. lia.
+Qed.
+
+Lemma die_size_eq dbg cx id tag sib attrs ch code cb aops :
+  write_uleb128 code = Ok cb -> attrs_write dbg cx attrs = Ok aops ->
+  Forall (fun p => expr_ok (snd p)) attrs ->
+  UnitWr.blen cb + (if sib && has_kids ch then wsz (wc_enc cx) else 0) + ops_len aops < 2 ^ 64 ->
+  die_size dbg (wc_enc cx) (Die id tag sib attrs ch) code =
+  Ok (UnitWr.blen cb + (if sib && has_kids ch then wsz (wc_enc cx) else 0) + ops_len aops).
+Proof.
+  intros C A X B. unfold die_size. rewrite <- (write_uleb128_len _ _ C).
+  destruct (sib && has_kids ch).
+  - rewrite chk_add_ok by lia. cbn [bind]. now apply attrs_write_size.
+  - cbn [bind]. rewrite (attrs_write_size _ _ _ _ _ A X) by lia. f_equal. lia.
+Qed.
+
+(* ops produced for attribute values carry no entry marks *)
+Definition plain (o : wop) : bool := match o with WMark _ => false | _ => true end.
+
+Lemma av_write_plain dbg cx v ops : av_write dbg cx v = Ok ops -> forallb plain ops = true.
+Proof.
+  destruct cx as [e be u uoff ents codes line lstr str rng loc].
+  destruct e as [ver fmt asz].
+  intros H.
+  destruct v; unfold av_write in H; cbn [wc_enc wc_be wc_line wc_loc wc_rng wc_str wc_lstr] in H;
+    revert H; unfold_asserts; case_ver ver; destruct fmt; intros H.
+  all: binds; try discriminate.
+  all: try match goal with H : match ?a with AConst _ => _ | ASym _ _ => _ end = _ |- _ => destruct a end.
+  all: try match goal with H : match ?l with Some _ => _ | None => _ end = Ok _ |- _ => destruct l end.
+  all: try match goal with H : match ?r with DSym _ => _ | DEntry _ _ => _ end = _ |- _ => destruct r end.
+  all: try match goal with H : (if valid_size ?s then _ else _) = _ |- _ => destruct (valid_size s) eqn:? end.
+  all: binds; try discriminate.
+  all: try match goal with H : Ok _ = Ok _ |- _ => injection H as <- end.
+  all: reflexivity.
+Qed.
+
+Lemma ops_marks_app : forall a b p, ops_marks p (a ++ b) = ops_marks p a ++ ops_marks (p + ops_len a) b.
+Proof.
+  induction a as [|o r IH]; intros b p; cbn [app ops_marks].
+  - rewrite ops_len_nil. f_equal. lia.
+  - rewrite IH, ops_len_cons. replace (p + UnitWr.blen (op_bytes o) + ops_len r) with (p + (UnitWr.blen (op_bytes o) + ops_len r)) by lia.
+    destruct o; reflexivity.
+Qed.
+
+Lemma ops_marks_plain : forall ops p, forallb plain ops = true -> ops_marks p ops = [].
+Proof.
+  induction ops as [|o r IH]; intros p H; cbn [ops_marks forallb] in *; [reflexivity|].
+  apply andb_true_iff in H. destruct H as [H1 H2]. rewrite (IH _ H2). destruct o; [discriminate|reflexivity..].
+Qed.
+
+Lemma attrs_write_plain dbg cx : forall attrs aops, attrs_write dbg cx attrs = Ok aops -> forallb plain aops = true.
+Proof.
+  induction attrs as [|[n v] r IH]; intros aops H; cbn [attrs_write] in H.
+  - now injection H as <-.
+  - binds. injection H as <-. rewrite forallb_app. rewrite (av_write_plain _ _ _ _ E), (IH _ E0). reflexivity.
+Qed.
+
+(* ------------------------------------------------------------------ calculate_offsets: frame *)
+
+Definition calc_frame_stmt (dbg : bool) (e : encoding) (ids : list nat) (st st' : cst) : Prop :=
+  length (cs_entries st') = length (cs_entries st) /\ length (cs_codes st') = length (cs_codes st) /\
+  (forall i, ~ In i ids -> nth_error (cs_entries st') i = nth_error (cs_entries st) i /\
+                           nth_error (cs_codes st') i = nth_error (cs_codes st) i).
+
+Lemma calc_frame_trans dbg e ids1 ids2 s1 s2 s3 :
+  calc_frame_stmt dbg e ids1 s1 s2 -> calc_frame_stmt dbg e ids2 s2 s3 ->
+  calc_frame_stmt dbg e (ids1 ++ ids2) s1 s3.
+Proof.
+  intros [A1 [A2 A3]] [B1 [B2 B3]]. split; [congruence|]. split; [congruence|].
+  intros i Hi. rewrite in_app_iff in Hi.
+  destruct (A3 i) as [X1 X2]; [tauto|]. destruct (B3 i) as [Y1 Y2]; [tauto|].
+  split; congruence.
+Qed.
+
+Lemma calc_list_frame dbg e ch :
+  Forall (fun d => forall st st', calc dbg e d st = Ok st' -> calc_frame_stmt dbg e (die_ids d) st st') ch ->
+  forall st st', calc_list dbg e ch st = Ok st' -> calc_frame_stmt dbg e (dies_ids ch) st st'.
+Proof.
+  induction 1 as [|c r Hc Hr IH]; intros st st' H; cbn [calc_list] in H.
+  - injection H as <-. repeat split; reflexivity.
+  - binds. unfold dies_ids. cbn [flat_map]. eapply calc_frame_trans; [apply Hc; eassumption|apply IH; assumption].
+Qed.
+
+Lemma calc_frame dbg e : forall d st st',
+  calc dbg e d st = Ok st' -> calc_frame_stmt dbg e (die_ids d) st st'.
+Proof.
+  induction d as [id tag sib attrs ch IH] using die_ind2. intros st st' H.
+  rewrite calc_unfold in H. binds.
+  destruct (abbrev_add (cs_abbrevs st) a0) as [code tab] eqn:EA. binds. cbv zeta in H.
+  destruct (set_nth_spec _ _ _ _ E) as [S1 [S2 S3]].
+  destruct (set_nth_spec _ _ _ _ E1) as [T1 [T2 T3]].
+  assert (F1 : calc_frame_stmt dbg e [id] st (mkCst a3 a tab a1)).
+  { split; [exact S3|]. split; [exact T3|]. intros i Hi. cbn [cs_entries cs_codes].
+    split; [apply S2|apply T2]; intros ->; apply Hi; now left. }
+  destruct ch as [|c r].
+  - injection H as <-. cbn [die_ids flat_map]. exact F1.
+  - binds. injection H as <-.
+    assert (F2 := calc_list_frame dbg e _ IH _ _ E4).
+    assert (F := calc_frame_trans _ _ _ _ _ _ _ F1 F2).
+    cbn [die_ids]. change (id :: flat_map die_ids (c :: r)) with ([id] ++ dies_ids (c :: r)).
+    destruct F as [G1 [G2 G3]]. split; [exact G1|]. split; [exact G2|]. exact G3.
+Qed.
+
+Lemma calc_list_frame' dbg e ch st st' :
+  calc_list dbg e ch st = Ok st' -> calc_frame_stmt dbg e (dies_ids ch) st st'.
+Proof.
+  apply calc_list_frame. apply Forall_forall. intros d _. apply calc_frame.
+Qed.
+
+(* ------------------------------------------------------------------ offsets_exact *)
+
+Definition agree_on (ids : list nat) (a b : list N) : Prop :=
+  forall i, In i ids -> nth_error a i = nth_error b i.
+
+Definition agree_stmt (dbg : bool) (cx : wcx) (ids : list nat) (st st' : cst) (ops : list wop) : Prop :=
+  cs_off st' = cs_off st + ops_len ops /\
+  map fst (ops_marks (cs_off st) ops) = ids /\
+  (forall i p, In (i, p) (ops_marks (cs_off st) ops) -> nth_error (cs_entries st') i = Some p).
+
+Definition agree_die (dbg : bool) (cx : wcx) (d : die) : Prop :=
+  forall st st' ops,
+    calc dbg (wc_enc cx) d st = Ok st' ->
+    write_die dbg cx d (cs_off st) = Ok ops ->
+    agree_on (die_ids d) (wc_codes cx) (cs_codes st') ->
+    NoDup (die_ids d) -> die_expr_ok d ->
+    cs_off st + ops_len ops < 2 ^ 64 ->
+    agree_stmt dbg cx (die_ids d) st st' ops.
+
+Lemma NoDup_app_l {A} (a b : list A) : NoDup (a ++ b) -> NoDup a.
+Proof. induction a as [|x r IH]; intros H; [constructor|]. inversion H; subst. constructor; [rewrite in_app_iff in *; tauto|auto]. Qed.
+Lemma NoDup_app_r {A} (a b : list A) : NoDup (a ++ b) -> NoDup b.
+Proof. induction a as [|x r IH]; intros H; [exact H|]. inversion H; subst. auto. Qed.
+Lemma NoDup_app_disj {A} (a b : list A) x : NoDup (a ++ b) -> In x a -> ~ In x b.
+Proof.
+  induction a as [|y r IH]; intros H Hx; [destruct Hx|]. inversion H; subst.
+  destruct Hx as [->|Hx]; [rewrite in_app_iff in *; tauto|auto].
+Qed.
+
+Lemma in_marks_fst pos ops i p : In (i, p) (ops_marks pos ops) -> In i (map fst (ops_marks pos ops)).
+Proof. intros H. change i with (fst (i, p)). now apply in_map. Qed.
+
+Lemma agree_list dbg cx ch :
+  Forall (agree_die dbg cx) ch ->
+  forall st st' ops,
+    calc_list dbg (wc_enc cx) ch st = Ok st' ->
+    write_list dbg cx ch (cs_off st) = Ok ops ->
+    agree_on (dies_ids ch) (wc_codes cx) (cs_codes st') ->
+    NoDup (dies_ids ch) -> dies_expr_ok ch ->
+    cs_off st + ops_len ops < 2 ^ 64 ->
+    agree_stmt dbg cx (dies_ids ch) st st' ops.
+Proof.
+  induction 1 as [|c r Hc Hr IH]; intros st st' ops HC HW HA HN HX HB; cbn [calc_list write_list] in *.
+  - injection HC as <-. injection HW as <-. unfold agree_stmt. rewrite ops_len_nil. cbn [ops_marks map].
+    split; [lia|]. split; [reflexivity|]. intros i p [].
+  - binds. injection HW as <-.
+    match goal with H : calc _ _ c _ = Ok ?s |- _ => rename s into sA; rename H into EC end.
+    match goal with H : write_die _ _ c _ = Ok ?x |- _ => rename x into o; rename H into EW end.
+    match goal with H : write_list _ _ r _ = Ok ?x |- _ => rename x into rest; rename H into EWL end.
+    unfold dies_ids in *. cbn [flat_map] in *. rewrite ops_len_app in HB.
+    destruct HX as [HX1 HX2].
+    assert (FR := calc_list_frame' _ _ _ _ _ HC). destruct FR as [_ [_ FR]].
+    (* the first child *)
+    assert (A1 : agree_stmt dbg cx (die_ids c) st sA o).
+    { apply Hc; try assumption.
+      - intros i Hi. rewrite HA by (rewrite in_app_iff; tauto).
+        apply (FR i). eapply NoDup_app_disj; eassumption.
+      - eapply NoDup_app_l; eassumption.
+      - lia. }
+    destruct A1 as [B1 [B2 B3]].
+    (* the remaining children *)
+    assert (A2 : agree_stmt dbg cx (flat_map die_ids r) sA st' rest).
+    { apply IH; try assumption.
+      - rewrite B1. exact EWL.
+      - intros i Hi. apply HA. rewrite in_app_iff. tauto.
+      - eapply NoDup_app_r; eassumption.
+      - rewrite B1. lia. }
+    destruct A2 as [C1 [C2 C3]].
+    unfold agree_stmt. rewrite ops_len_app, ops_marks_app, map_app. rewrite <- B1.
+    split; [lia|]. split; [now rewrite B2, C2|].
+    intros i p Hi. rewrite in_app_iff in Hi. destruct Hi as [Hi|Hi].
+    + assert (Hid : In i (die_ids c)) by (rewrite <- B2; eapply in_marks_fst; eassumption).
+      destruct (FR i) as [F1 _]; [eapply NoDup_app_disj; eassumption|]. rewrite F1. now apply B3.
+    + now apply C3.
+Qed.
+
+Lemma ops_marks_wb_plain p b r : forallb plain r = true -> ops_marks p (WB b :: r) = [].
+Proof. intros H. cbn [ops_marks]. now apply ops_marks_plain. Qed.
+
+Lemma agree_all dbg cx : forall d, agree_die dbg cx d.
+Proof.
+  induction d as [id tag sib attrs ch IH] using die_ind2.
+  intros st st' ops HC HW HA HN HX HB.
+  rewrite calc_unfold in HC. rewrite write_die_unfold in HW.
+  rewrite die_expr_ok_unfold in HX. destruct HX as [HXa HXc].
+  cbn [die_ids] in *. inversion HN as [|? ? HNid HNch]; subst.
+  (* calculate_offsets side *)
+  apply bind_ok_inv in HC. destruct HC as [ents [Eents HC]].
+  apply bind_ok_inv in HC. destruct HC as [ab [Eab HC]].
+  destruct (abbrev_add (cs_abbrevs st) ab) as [code tab] eqn:EA.
+  apply bind_ok_inv in HC. destruct HC as [codes [Ecodes HC]].
+  apply bind_ok_inv in HC. destruct HC as [sz [Esz HC]].
+  apply bind_ok_inv in HC. destruct HC as [off1 [Eoff1 HC]]. cbv zeta in HC.
+  destruct (set_nth_spec _ _ _ _ Eents) as [S1 [S2 S3]].
+  destruct (set_nth_spec _ _ _ _ Ecodes) as [T1 [T2 T3]].
+  (* write side *)
+  apply bind_ok_inv in HW. destruct HW as [u0 [_ HW]].
+  apply bind_ok_inv in HW. destruct HW as [code' [Ecode' HW]].
+  apply bind_ok_inv in HW. destruct HW as [cb [Ecb HW]]. cbv zeta in HW.
+  apply bind_ok_inv in HW. destruct HW as [aops [Eaops HW]].
+  assert (Pa := attrs_write_plain _ _ _ _ Eaops).
+  (* the code looked up by `write` is the one `calculate_offsets` stored *)
+  assert (Hcode : forall stF, calc_frame_stmt dbg (wc_enc cx) (flat_map die_ids ch) (mkCst off1 ents tab codes) stF ->
+                  cs_codes st' = cs_codes stF -> code' = code).
+  { intros stF [_ [_ F]] Eq. unfold idx_get, unwrap in Ecode'.
+    rewrite (HA id (or_introl eq_refl)) in Ecode'. rewrite Eq in Ecode'.
+    destruct (F id HNid) as [_ F2]. rewrite F2 in Ecode'. cbn [cs_codes] in Ecode'. rewrite T1 in Ecode'.
+    now injection Ecode' as <-. }
+  destruct ch as [|c r].
+  - (* leaf *)
+    injection HC as <-. injection HW as <-.
+    assert (code' = code).
+    { apply (Hcode (mkCst off1 ents tab codes)); [|reflexivity].
+      repeat split; reflexivity. }
+    subst code'.
+    rewrite !ops_len_cons in HB. cbn [op_bytes] in HB. rewrite blen_nil in HB.
+    cbn [has_kids] in *. rewrite ?andb_false_r in *.
+    rewrite (die_size_eq dbg cx id tag sib attrs [] code cb aops Ecb Eaops HXa) in Esz
+      by (cbn [has_kids]; rewrite andb_false_r; lia).
+    cbn [has_kids] in Esz. rewrite andb_false_r in Esz. injection Esz as <-.
+    rewrite chk_add_ok in Eoff1 by lia. injection Eoff1 as <-.
+    unfold agree_stmt. cbn [cs_off cs_entries flat_map]. rewrite !ops_len_cons. cbn [op_bytes]. rewrite blen_nil.
+    cbn [ops_marks op_bytes]. rewrite blen_nil, N.add_0_r. rewrite (ops_marks_plain aops) by assumption.
+    cbn [map fst].
+    split; [lia|]. split; [reflexivity|]. intros i p [Hi|[]]. injection Hi as <- <-. exact S1.
+  - (* node *)
+    apply bind_ok_inv in HC. destruct HC as [st2 [Est2 HC]].
+    apply bind_ok_inv in HC. destruct HC as [off2 [Eoff2 HC]]. injection HC as <-.
+    apply bind_ok_inv in HW. destruct HW as [cops [Ecops HW]].
+    apply bind_ok_inv in HW. destruct HW as [sibb [Esibb HW]]. injection HW as <-.
+    assert (FR := calc_list_frame' _ _ _ _ _ Est2).
+    assert (code' = code) by (apply (Hcode st2 FR); reflexivity). subst code'.
+    cbn [has_kids] in *. rewrite ?andb_true_r in *.
+    set (w := wsz (wc_enc cx)) in *.
+    (* the sibling patch has the width of the placeholder *)
+    assert (Hsib : ops_len sibb = (if sib then w else 0) /\ forallb plain sibb = true).
+    { destruct sib.
+      - binds. injection Esibb as <-. rewrite ops_len_wb.
+        match goal with H : write_udata _ _ _ = Ok _ |- _ => rewrite (write_udata_len _ _ _ _ H) end. split; reflexivity.
+      - injection Esibb as <-. split; reflexivity. }
+    destruct Hsib as [Lsib Psib].
+    rewrite !ops_len_cons, !ops_len_app, ops_len_wb in HB. cbn [op_bytes] in HB. rewrite blen_nil, Lsib in HB.
+    change (UnitWr.blen [x00]) with 1 in HB.
+    rewrite (die_size_eq dbg cx id tag sib attrs (c :: r) code cb aops Ecb Eaops HXa) in Esz
+      by (cbn [has_kids]; rewrite andb_true_r; fold w; lia).
+    cbn [has_kids] in Esz. rewrite andb_true_r in Esz. fold w in Esz. injection Esz as <-.
+    rewrite chk_add_ok in Eoff1 by lia. injection Eoff1 as <-.
+    (* children *)
+    assert (AL : agree_stmt dbg cx (dies_ids (c :: r))
+                   (mkCst (cs_off st + (UnitWr.blen cb + (if sib then w else 0) + ops_len aops)) ents tab codes) st2 cops).
+    { apply (agree_list dbg cx (c :: r) IH); cbn [cs_off]; try assumption.
+      - rewrite <- Ecops. f_equal. lia.
+      - intros i Hi. apply (HA i). now right.
+      - lia. }
+    destruct AL as [L1 [L2 L3]]. cbn [cs_off] in L1, L2, L3.
+    rewrite chk_add_ok in Eoff2 by lia. injection Eoff2 as <-.
+    unfold agree_stmt. cbn [cs_off cs_entries].
+    rewrite !ops_len_cons, !ops_len_app, ops_len_wb. cbn [op_bytes]. rewrite blen_nil, Lsib.
+    change (UnitWr.blen [x00]) with 1.
+    split; [lia|].
+    (* marks *)
+    assert (M : ops_marks (cs_off st) (WMark id :: WB cb :: sibb ++ aops ++ cops ++ [WB [x00]]) =
+                (id, cs_off st) :: ops_marks (cs_off st + (UnitWr.blen cb + (if sib then w else 0) + ops_len aops)) cops).
+    { cbn [ops_marks op_bytes]. rewrite blen_nil, N.add_0_r. f_equal.
+      rewrite !ops_marks_app. rewrite (ops_marks_plain sibb) by assumption.
+      rewrite (ops_marks_plain aops) by assumption. cbn [app].
+      rewrite (ops_marks_plain [WB [x00]]) by reflexivity. rewrite app_nil_r.
+      f_equal. rewrite Lsib. lia. }
+    rewrite M. cbn [map fst]. split; [now rewrite L2|].
+    intros i p [Hi|Hi].
+    + injection Hi as <- <-. destruct FR as [_ [_ FR]]. destruct (FR id HNid) as [F1 _].
+      rewrite F1. exact S1.
+    + now apply L3.
+Qed.
